@@ -17,12 +17,12 @@ PROPS = {
         ],
     },
     'C03': {'design_ref': '§C03', 'not_decided': ['event emission (exactly one terminal event)', 'duplicate-id refusal', 'restart reconstruction', 'failure attribution', 'balances']},
-    'C04': {'design_ref': '§C04', 'not_decided': ['authenticity (HMAC/ChaCha assumed)', 'expiry and claim-deadline handling on blocks/timer ticks', 'all-or-nothing claim across channels']},
+    'C04': {'design_ref': '§C04', 'not_decided': ['authenticity (HMAC/ChaCha assumed)', 'the block/timer loops that call the per-HTLC expiry tests (only check_mpp_timeout, check_onchain_timeout and the advertised claim deadline are under contract)', 'all-or-nothing claim across channels']},
     'C05': {'design_ref': '§C05', 'not_decided': ['release of a secret only after a newer signed commitment', 'at most one unrevoked counterparty commitment',
                                                   'comparison of the secret with the announced point in revoke_and_ack', 'reestablish', 'restart']},
-    'C06': {'design_ref': '§C05', 'not_decided': ['recognising the revoked transaction', 'building valid justice transactions for every output', 'fee bumping', 'reload']},
+    'C06': {'design_ref': '§C05', 'not_decided': ['recognising the revoked transaction', 'building valid justice transactions for every output', 'the re-issuing loop of OnchainTxHandler (only the bump arithmetic feerate_bump / get_height_timer is under contract)', 'reload']},
     'C07': {'design_ref': '§C07', 'not_decided': ['which outputs are claimed', 'consensus validity/finality', 'get_claimable_balances conservation', 'anchors with external inputs', 'sweeps']},
-    'C08': {'design_ref': '§C08', 'not_decided': ['that the monitor really goes on chain at those heights (should_broadcast_holder_commitment_txn)', 'automatic fail-back on new blocks', 'fail-back only after burial']},
+    'C08': {'design_ref': '§C08', 'not_decided': ['that the monitor evaluates the (sliced, proved) go-on-chain test for every HTLC of every commitment and acts on it', 'automatic fail-back on new blocks', 'fail-back only after burial']},
     'C11': {'design_ref': '§C11', 'not_decided': ['independence from the delivery style', 'idempotent re-delivery', 'what OnchainTxHandler does on reorg', 'events already acted upon']},
     'C12': {'design_ref': '§C12', 'not_decided': ['round trip of ChannelManager, ChannelMonitor, ChannelMonitorUpdate, graph, scorer, sweeper', 'behavioural equivalence after reload']},
     'C13': {'design_ref': '§C12', 'not_decided': ['messages with keys/signatures', 'feature vectors', 'decoding totality on arbitrary-length input']},
